@@ -566,14 +566,14 @@ func (x *tr) ioForEach(s *ast.RangeStmt) bool {
 			if st.Tok != token.ASSIGN || len(st.Lhs) != 1 || len(st.Rhs) != 1 {
 				return false
 			}
-			if a, ok := x.t.IOStores[src(x.p.fset, st.Lhs[0])]; ok {
-				rhs := st.Rhs[0]
-				todo = append(todo, func() { x.ioStore(a, rhs) })
-				continue
-			}
 			if _, ok := x.recordedAppend(st); ok {
 				as := st
 				todo = append(todo, func() { x.appendAct(as) })
+				continue
+			}
+			if a, ok := x.t.IOStores[src(x.p.fset, st.Lhs[0])]; ok {
+				rhs := st.Rhs[0]
+				todo = append(todo, func() { x.ioStore(a, rhs) })
 				continue
 			}
 			return false
